@@ -302,6 +302,14 @@ def scenarios():
                          author_timestamp=700, author_timezone=0, sign=False)
     S["porcelain add+commit"] = add_and_commit
 
+    def lfs_write(r):
+        # the LFS object store under .git/lfs (the built-in clean filter stores file contents there)
+        from dulwich.lfs import LFSStore
+        st = LFSStore.from_repo(r, create=True)
+        st.write_object([b"small lfs payload\n" * 40])
+        st.write_object([b"first chunk of a larger payload\n" * 200, b"second chunk\n" * 300, b"tail"])
+    S["lfs_store_write"] = lfs_write
+
     def config_write(r):
         c = r.get_config()
         c.set((b"user",), b"name", b"x y")
@@ -343,7 +351,7 @@ def _prep_shallow(r):
 
 PREP = {"del_ref(loose shadows packed)": _prep_shadow, "fetch(deepen a shallow clone)": _prep_shallow}
 # scenarios whose states are judged by the real recovery procedure only (Crash.tla has no shallow boundary)
-REAL_ONLY = {"fetch(deepen a shallow clone)"}
+REAL_ONLY = {"fetch(deepen a shallow clone)", "lfs_store_write"}
 
 
 # --------------------------------------------------------------------------- projection (independent of the code under test where cheap)
@@ -584,6 +592,14 @@ def recover(snap, pre_refs, post_refs, pre_objs, any_ref_value=False):
             r.get_config()
         except Exception as e:
             return f"ConfigUnreadable:{type(e).__name__}"
+        # LFS objects are named by the SHA-256 of their content: a file under its final name is complete
+        lfsdir = os.path.join(snap, ".git", "lfs", "objects")
+        for dp, dn, fn in os.walk(lfsdir) if os.path.isdir(lfsdir) else []:
+            for f_ in fn:
+                if len(f_) == 64:
+                    with open(os.path.join(dp, f_), "rb") as fh:
+                        if hashlib.sha256(fh.read()).hexdigest() != f_:
+                            return "HalfWrittenLfsObjectVisible"
         # optional acceleration files: whatever is there must load
         try:
             cg = store.get_commit_graph()
@@ -751,9 +767,11 @@ def run(ctx):
         for layout in layouts:
             for fsync in (False, True):
                 if ctx.quick:
-                    # quick: every scenario on two layouts, fsync on for half of them
-                    h = (list(S).index(name) + layouts.index(layout)) % 3
-                    if h == 0 or (fsync and h == 1) or (not fsync and h == 2):
+                    # quick: every scenario on (packed, fsync on) and (mixed, fsync off) -- independent of how many
+                    # scenarios there are -- plus (loose, fsync on) for every other scenario
+                    keep = (layout, fsync) in (("packed", True), ("mixed", False)) or \
+                        (layout == "loose" and fsync and list(S).index(name) % 2 == 0)
+                    if not keep:
                         continue
                 plan.append((name, layout, fsync))
     traces, meta = [], {}
